@@ -12,6 +12,9 @@ var (
 	ErrUnknownTreeId = errors.New("tree does not exist")
 	ErrTreeExists    = errors.New("tree already exists")
 	ErrUnknownChange = errors.New("change doesn't exist")
+	// ErrTreeStorageAlreadyDeleted is returned when a storage is requested or created for a tree
+	// whose deletion has been recorded (spacestorage re-exports it under the same name)
+	ErrTreeStorageAlreadyDeleted = errors.New("tree storage already deleted")
 )
 
 type TreeStorageCreatePayload struct {
